@@ -292,7 +292,7 @@ def run_node_workload(cx, spec, rng):
     from vf.checks import c07
     run = c07.Run()
     for s, b, script in c07.DIRECTED:
-        run.one(s, b, [(0, l) for l in script], 1)
+        run.one(s, b, [l if isinstance(l, tuple) else (0, l) for l in script], 1)
     for _ in range(spec["n"]):
         nconn = rng.choice([1, 2])
         script = [(rng.randrange(nconn), rng.choice(c07.LETTERS)) for _ in range(rng.randrange(2, 8))]
